@@ -5,6 +5,7 @@ import (
 	"fmt"
 	"os"
 	"path/filepath"
+	"reflect"
 	"sort"
 	"strings"
 	"testing"
@@ -50,7 +51,9 @@ func c04Gen(t *rapid.T) c04Case {
 	}
 	n := rapid.IntRange(1, maxLen).Draw(t, "nactions")
 	for i := 0; i < n; i++ {
-		switch rapid.IntRange(0, 3).Draw(t, "op") {
+		switch rapid.IntRange(0, 4).Draw(t, "op") {
+		case 4:
+			c.Actions = append(c.Actions, c04Action{Op: "mutate", Key: rapid.SampledFrom([]string{"map", "text", "both"}).Draw(t, "mutation")})
 		case 0:
 			op := "reload"
 			if c.Wrapper == "legacy" && rapid.Bool().Draw(t, "deprecated") {
@@ -77,7 +80,7 @@ func c04Dump(md intoto.Metadata, dir, name string) (string, error) {
 
 // c04CheckAll compares VerifySignature with the model for every pool key, and checks every
 // emitted signature with the independent verifier.
-func c04CheckAll(md intoto.Metadata, model map[string]bool, dir string, step int) error {
+func c04CheckAll(md intoto.Metadata, model map[string]bool, stale map[string]bool, dir string, step int, want any) error {
 	path, err := c04Dump(md, dir, fmt.Sprintf("state%d.json", step))
 	if err != nil {
 		return fmt.Errorf("step %d: Dump failed: %v", step, err)
@@ -89,8 +92,17 @@ func c04CheckAll(md intoto.Metadata, model map[string]bool, dir string, step int
 	if sf.SignBytes == nil {
 		return fmt.Errorf("step %d: cannot determine the signed bytes of the dumped file", step)
 	}
+	if !reflect.DeepEqual(sf.Signed, want) {
+		return fmt.Errorf("step %d: the dumped file does not hold the current content:\n got  %s\n want %s", step, hx.GenericString(sf.Signed), hx.GenericString(want))
+	}
 	for _, k := range hx.Pool() {
 		if k.Name == "rsa3072-0" && !model[k.Name] {
+			continue
+		}
+		if stale[k.Name] {
+			// the legacy wrapper still carries this key's signature over earlier content in front of
+			// any new one; what a re-signature by the same key then yields is outside the stated
+			// quantifier (observation, not asserted)
 			continue
 		}
 		verr := md.VerifySignature(k.Pub())
@@ -129,6 +141,8 @@ func c04Run(c c04Case, r *hx.Rec) error {
 		md = &intoto.Metablock{Signed: c.Meta.Lib(), Signatures: []intoto.Signature{}}
 	}
 	model := map[string]bool{}
+	stale := map[string]bool{}
+	cur := c.Meta
 	var ops []string
 	signers := map[string]bool{}
 	reloadBetween := false
@@ -142,8 +156,33 @@ func c04Run(c c04Case, r *hx.Rec) error {
 			model[a.Key] = true
 			signers[a.Key] = true
 			ops = append(ops, "s:"+k.Type)
+		case "mutate":
+			// the caller edits the metadata it holds (a map entry in place plus one text field)
+			// and, for DSSE, sets it as payload again: nothing signed so far covers the new content
+			var edited any
+			cur, edited = c04Mutate(cur, md.GetPayload(), a.Key)
+			if edited == nil {
+				ops = append(ops, "skip")
+				continue
+			}
+			if env, ok := md.(*intoto.Envelope); ok {
+				if err := env.SetPayload(edited); err != nil {
+					return fmt.Errorf("step %d: SetPayload of the edited payload failed: %v", i, err)
+				}
+			} else if mb, ok := md.(*intoto.Metablock); ok {
+				mb.Signed = edited
+				for _, sg := range mb.Signatures {
+					for _, k := range hx.Pool() {
+						if k.KeyID == sg.KeyID {
+							stale[k.Name] = true
+						}
+					}
+				}
+			}
+			model = map[string]bool{}
+			ops = append(ops, "m")
 		case "reload", "reload-deprecated":
-			if len(model) == 0 && c.Wrapper == "dsse" {
+			if len(md.Sigs()) == 0 && c.Wrapper == "dsse" {
 				// an envelope without signatures: round trip of unsigned envelopes is C12's subject
 				ops = append(ops, "skip")
 				continue
@@ -170,10 +209,7 @@ func c04Run(c c04Case, r *hx.Rec) error {
 			}
 			ops = append(ops, "r")
 		}
-		if len(model) == 0 && c.Wrapper == "dsse" {
-			continue // nothing to dump yet
-		}
-		if err := c04CheckAll(md, model, dir, i); err != nil {
+		if err := c04CheckAll(md, model, stale, dir, i, hx.NormalizeGeneric(afterRoundTripIf(cur, a.Op).JV())); err != nil {
 			return err
 		}
 	}
@@ -188,7 +224,7 @@ func c04Run(c c04Case, r *hx.Rec) error {
 	// vice versa: what an independent implementation signs, the library verifies
 	if c.Foreign {
 		k := hx.PoolKey(c.Probe.Other)
-		jv := c.Meta.JV()
+		jv := cur.JV()
 		fp := filepath.Join(dir, "foreign.json")
 		if c.Wrapper == "legacy" {
 			e, err := hx.HarnessSignLegacy(k, jv)
@@ -310,8 +346,8 @@ func c04Run(c c04Case, r *hx.Rec) error {
 	// in-memory variant of the payload probe for the legacy wrapper
 	if c.Probe.Kind == "payload" && c.Wrapper == "legacy" {
 		if mb, ok := md.(*intoto.Metablock); ok {
-			if m2, _, ok := modelMutant(c.Meta, c.Probe.B); ok {
-				b1, e1 := hx.RefCJSON(c.Meta.JV())
+			if m2, _, ok := modelMutant(cur, c.Probe.B); ok {
+				b1, e1 := hx.RefCJSON(cur.JV())
 				b2, e2 := hx.RefCJSON(m2.JV())
 				if e1 == nil && e2 == nil && !bytes.Equal(b1, b2) {
 					mb2 := &intoto.Metablock{Signed: m2.Lib(), Signatures: mb.Signatures}
@@ -327,6 +363,60 @@ func c04Run(c c04Case, r *hx.Rec) error {
 	}
 	return nil
 }
+
+// c04Mutate applies the same edit to the model and to the library object the caller holds:
+// an in-place map insertion (when the map exists) and a changed text field.
+func c04Mutate(m hx.MMeta, payload any, variant string) (hx.MMeta, any) {
+	text := variant != "map"
+	inMap := variant != "text"
+	switch p := payload.(type) {
+	case intoto.Link:
+		if m.Link == nil || (!text && p.Products == nil) {
+			return m, nil
+		}
+		l := *m.Link
+		if text {
+			l.Name += "!"
+			p.Name += "!"
+		}
+		if inMap && p.Products != nil {
+			np := hx.MArtifacts{}
+			for k, v := range l.Products {
+				np[k] = v
+			}
+			np["zz-mutated"] = map[string]string{"sha256": "00"}
+			l.Products = np
+			p.Products["zz-mutated"] = intoto.HashObj{"sha256": "00"} // in place: shared with whatever else holds the map
+		}
+		return hx.MMeta{Link: &l}, p
+	case intoto.Layout:
+		if m.Layout == nil {
+			return m, nil
+		}
+		if !text && p.Keys == nil {
+			return m, nil
+		}
+		l := *m.Layout
+		if text {
+			l.Readme += "!"
+			p.Readme += "!"
+		}
+		if inMap && p.Keys != nil {
+			nk := hx.MKeys{}
+			for k, v := range l.Keys {
+				nk[k] = v
+			}
+			nk["zz"] = hx.MKey{KeyID: "zz", KeyType: "ed25519", Scheme: "ed25519", Public: "00"}
+			l.Keys = nk
+			p.Keys["zz"] = intoto.Key{KeyID: "zz", KeyType: "ed25519", Scheme: "ed25519", KeyVal: intoto.KeyVal{Public: "00"}}
+		}
+		return hx.MMeta{Layout: &l}, p
+	}
+	return m, nil
+}
+
+// afterRoundTripIf: the optional members are written only when non-empty, in every state.
+func afterRoundTripIf(m hx.MMeta, op string) hx.MMeta { return m }
 
 func b64(b []byte) string {
 	return base64Std(b)
